@@ -106,7 +106,7 @@ Definition cops_unfixed : ops cmatrix :=
         (o_del_ecu O) (o_rename_frame O) (o_del_frame O) (o_add_frame_receiver O) (o_frame_id_increment O)
         change_frame_id_unfixed (o_set_frame_fd O) (o_unset_frame_fd O) (o_skip_long_dlc O) (o_cut_long_frames O)
         (o_rename_signal O) (o_del_signal O) (o_delete_zero_signals O) (o_del_signal_attributes O)
-        (o_del_frame_attributes O) (o_clear_cycle_time O) (o_delete_obsolete_defines O) (o_delete_obsolete_ecus O)
+        (o_del_frame_attributes O) (o_delete_obsolete_defines O) (o_delete_obsolete_ecus O)
         (o_compress_frames O) (o_recalc_dlc O) (o_pdu O).
 
 Definition ecus_out (o : option (list ecu_sel)) : io :=
